@@ -407,10 +407,21 @@ class Cache(Filter[Iterable[Any], Iterable[Any]]):
 
         yield from self._cache
         items = self._iter
-        while current := list(islice(self._iter,n_slice)):
+        while current := self._next_slice(n_slice):
             self._cache.extend(current)
             yield from current
         self._iter = None
+
+    def _next_slice(self, n_slice:int) -> Sequence[Any]:
+        try:
+            return list(islice(self._iter,n_slice))
+        except Exception:
+            #What has been cached so far is not the complete sequence and the failed iterator can't
+            #be continued. We forget both so the next read starts over rather than replaying (and
+            #then silently completing with) a truncated sequence.
+            self._iter  = None
+            self._cache = None
+            raise
 
 class Insert(Filter[Iterable[Any], Iterable[Any]]):
     def __init__(self, insert_items: Sequence[Any]) -> None:
